@@ -458,6 +458,10 @@ class StreamResponse(
         if self._payload_writer is None:
             raise RuntimeError("Cannot call write() before prepare()")
 
+        if self._must_be_empty_body:
+            # HEAD, 1xx, 204, 304: the response has no body on the wire
+            return
+
         await self._payload_writer.write(data)
 
     async def drain(self) -> None:
